@@ -19,6 +19,7 @@ package main
 
 import (
 	"context"
+	"errors"
 	"fmt"
 	"math/rand"
 	"os"
@@ -31,6 +32,7 @@ import (
 	"github.com/jamf/regatta/regattapb"
 	"github.com/jamf/regatta/replication/snapshot"
 	"github.com/jamf/regatta/storage"
+	serrors "github.com/jamf/regatta/storage/errors"
 	"github.com/jamf/regatta/storage/table"
 	lvfs "github.com/lni/vfs"
 	"go.uber.org/zap"
@@ -108,52 +110,96 @@ func localIdx(e *storage.Engine, tname string) (uint64, error) {
 	return r.Index, nil
 }
 
-func cluster3Scenario(out *Out, r *rand.Rand, sc int) {
-	members := map[uint64]string{}
-	for i := uint64(1); i <= 3; i++ {
-		members[i] = fmt.Sprintf("127.0.0.1:%d", freePort())
-	}
-	nodes := make([]*cnode, 3)
-	for i := range nodes {
-		nodes[i] = &cnode{id: uint64(i + 1), members: members, rt: table.SnapshotRecoveryType(r.Intn(2))}
-	}
-	// the nodes need a quorum to get ready: start them together
-	var wg sync.WaitGroup
-	errs := make([]error, 3)
-	for i := range nodes {
-		wg.Add(1)
-		go func(i int) { defer wg.Done(); errs[i] = nodes[i].start() }(i)
-	}
-	wg.Wait()
-	for i, err := range errs {
-		if err != nil {
-			out.Line(fmt.Sprintf("cluster-start %d", sc), fmt.Sprintf("err node %d: %v", i+1, err))
+// startCluster3 brings up three nodes with a table on all of them.  Setting a cluster up is not what is
+// being judged: a port taken by someone else in between, a proposal dropped by an election right after
+// the start (CreateTable times out; a retry finds the table created or creates it) are tried again; a
+// scenario that cannot be set up is counted (setup_failed_*) and skipped without a verdict - the mode
+// reports an error only if NO scenario could be set up.
+func startCluster3(out *Out, r *rand.Rand, tname string) []*cnode {
+	formats := []table.SnapshotRecoveryType{table.SnapshotRecoveryType(r.Intn(2)), table.SnapshotRecoveryType(r.Intn(2)), table.SnapshotRecoveryType(r.Intn(2))}
+	for attempt := 0; attempt < 3; attempt++ {
+		members := map[uint64]string{}
+		for i := uint64(1); i <= 3; i++ {
+			members[i] = fmt.Sprintf("127.0.0.1:%d", freePort())
+		}
+		nodes := make([]*cnode, 3)
+		for i := range nodes {
+			nodes[i] = &cnode{id: uint64(i + 1), members: members, rt: formats[i]}
+		}
+		stopAll := func() {
 			for _, n := range nodes {
 				n.stop()
 			}
-			return
 		}
+		// the nodes need a quorum to get ready: start them together
+		var wg sync.WaitGroup
+		errs := make([]error, 3)
+		for i := range nodes {
+			wg.Add(1)
+			go func(i int) { defer wg.Done(); errs[i] = nodes[i].start() }(i)
+		}
+		wg.Wait()
+		why := ""
+		for _, err := range errs {
+			if err != nil {
+				why = "node_start"
+			}
+		}
+		if why == "" {
+			for _, n := range nodes {
+				if !n.ready(60 * time.Second) {
+					why = "not_ready"
+					break
+				}
+			}
+		}
+		if why == "" {
+			var err error
+			for i := 0; i < 6; i++ {
+				if _, err = nodes[0].e.CreateTable(tname); err == nil || errors.Is(err, serrors.ErrTableExists) {
+					err = nil
+					break
+				}
+				time.Sleep(300 * time.Millisecond)
+			}
+			if err != nil {
+				why = "create_table"
+			}
+		}
+		if why == "" {
+			func() {
+				defer func() {
+					if recover() != nil {
+						why = "table_not_ready"
+					}
+				}()
+				for _, n := range nodes {
+					waitTable(n.e, tname)
+				}
+			}()
+		}
+		if why == "" {
+			return nodes
+		}
+		out.Count("setup_failed_" + why)
+		stopAll()
+	}
+	return nil
+}
+
+func cluster3Scenario(out *Out, r *rand.Rand, sc int) {
+	tname := "c3"
+	nodes := startCluster3(out, r, tname)
+	if nodes == nil {
+		return
 	}
 	defer func() {
 		for _, n := range nodes {
 			n.stop()
 		}
 	}()
-	for _, n := range nodes {
-		if !n.ready(60 * time.Second) {
-			out.Line(fmt.Sprintf("cluster-start %d", sc), "err not-ready")
-			return
-		}
-	}
+	out.Count("scenarios_set_up")
 	out.Line("reset", "ok")
-	tname := "c3"
-	if _, err := nodes[0].e.CreateTable(tname); err != nil {
-		out.Line("create", "err "+err.Error())
-		return
-	}
-	for _, n := range nodes {
-		waitTable(n.e, tname)
-	}
 	out.Line("ltable "+hx([]byte(tname)), "ok")
 	out.Stats[fmt.Sprintf("formats_%d%d%d", nodes[0].rt, nodes[1].rt, nodes[2].rt)]++
 	g := newFsmGen(r)
@@ -383,6 +429,12 @@ func cluster3Scenario(out *Out, r *rand.Rand, sc int) {
 	for _, n := range nodes {
 		li, err1 := localIdx(n.e, tname)
 		ps, err2 := fullPairs(n.e, tname, false)
+		for try := 0; try < 5 && (err1 != nil || err2 != nil); try++ {
+			// a read that times out on a loaded machine is tried again; a replica that cannot be read at all is reported
+			time.Sleep(time.Second)
+			li, err1 = localIdx(n.e, tname)
+			ps, err2 = fullPairs(n.e, tname, false)
+		}
 		if err1 != nil || err2 != nil {
 			out.Line(fmt.Sprintf("final %s@%d 0 - %d", hx([]byte(tname)), n.id, lastAcked), "err replica-read")
 			continue
@@ -407,6 +459,9 @@ func hCluster3(dir string) {
 	n := envInt("VERIF_N", 2)
 	for sc := 0; sc < n; sc++ {
 		cluster3Scenario(out, newRand(int64(9900+sc)), sc)
+	}
+	if out.Stats["scenarios_set_up"] == 0 {
+		out.Line("cluster-setup", "err no scenario could be set up")
 	}
 }
 
